@@ -97,6 +97,10 @@ def addAll (mm : Murmur) : Filter → List Bytes → Option Filter
     | none => none
     | some f' => addAll mm f' ds
 
+/-- `Filter.Reload(msg)`: the object's filter is replaced; nothing of the previous filter (in
+    particular no size derived from it) takes part in later operations. -/
+def reload (_current new : Filter) : Filter := new
+
 /-! ### outpoints -/
 
 /-- `OutPoint.Bytes()`: 32-byte tx id followed by the little-endian uint16 index. -/
